@@ -200,6 +200,9 @@ func (e *Env) ident(name string) EVal {
 			return v
 		}
 	}
+	if gl, t, ok := e.s.ghostLocal(e.st, name); ok {
+		return EVal{T: gl, Ty: t}
+	}
 	if g := e.ghostDecl(name); g != nil {
 		return e.ghostVal(g)
 	}
@@ -824,4 +827,25 @@ func (s *Session) bindArgs(env *Env, sig *types.Signature, callee *ssa.Function,
 		env.vars[fmt.Sprintf("arg%d", j)] = v
 		i++
 	}
+}
+
+// ghostLocal: per-activation ghost variable of the function under verification.
+func (s *Session) ghostLocal(st *State, name string) (Term, types.Type, bool) {
+	if s.con == nil || st == nil {
+		return Term{}, nil, false
+	}
+	for _, g := range s.con.GhostLocals {
+		if g.Name == name {
+			fr := st.fr
+			for fr.parent != nil {
+				fr = fr.parent
+			}
+			t := s.P.resolveType(s.fn.Pkg.Pkg, g.Type)
+			if v, ok := fr.glocals[name]; ok {
+				return v, t, true
+			}
+			return zeroTerm(sortOf(t)), t, true
+		}
+	}
+	return Term{}, nil, false
 }
